@@ -6,6 +6,7 @@ import (
 	"go/token"
 	"go/types"
 	"os"
+	"os/exec"
 	"path/filepath"
 	"sort"
 	"strings"
@@ -558,5 +559,37 @@ func genSites() {
 	sort.Strings(splits)
 	b.WriteString("\n(* (function, lock class, number of separate critical sections in which the function touches\n   fields guarded by that lock), for every function with more than one *)\n")
 	b.WriteString("Definition split_critical_sections : list (string * string * nat) :=\n  [" + strings.Join(splits, "; ") + "].\n")
+	// locks copied by value (go vet's copylocks pass over the non-test sources): a copy of a struct
+	// that holds a mutex has its own lock, so two "guarded" accesses no longer exclude each other
+	copies := copiedLocks()
+	b.WriteString("\n(* by-value copies of lock-bearing values reported by `go vet -copylocks` (G11) *)\n")
+	b.WriteString("Definition copied_locks : list string := [" + strings.Join(copies, "; ") + "].\n")
+	rep.Facts["sites.copied_locks"] = strings.Join(copies, " ")
 	writeIfChanged("Sites.v", b.String())
+}
+
+func copiedLocks() []string {
+	cmd := exec.Command("go", "vet", "-copylocks", "./service/...", "./prometheus/...", "./cmd/...", "./net/...", "./ipinfo/...")
+	cmd.Dir = repo
+	cmd.Env = append(os.Environ(), "GOFLAGS=-mod=mod", "GOPROXY=off", "GOSUMDB=off", "GOTOOLCHAIN=local")
+	out, err := cmd.CombinedOutput()
+	var res []string
+	for _, ln := range strings.Split(string(out), "\n") {
+		ln = strings.TrimSpace(ln)
+		if ln == "" || strings.HasPrefix(ln, "#") || strings.Contains(ln, "_test.go:") {
+			continue
+		}
+		if i := strings.Index(ln, ": "); i > 0 && strings.Contains(ln[:i], ".go:") {
+			// file.go:line:col: message  ->  file.go: message (line numbers would make the fact brittle)
+			file := ln[:strings.Index(ln, ".go:")+3]
+			res = append(res, coqString(filepath.Base(file)+": "+ln[i+2:]))
+		} else if err != nil {
+			res = append(res, coqString("go vet: "+ln))
+		}
+	}
+	if err != nil && len(res) == 0 {
+		missing("sites: go vet -copylocks did not run: " + err.Error())
+	}
+	sort.Strings(res)
+	return res
 }
